@@ -15,7 +15,11 @@ CLAIMS = {
              "(a lookup returns what a fresh table walk returns) for every request history, and rejects the negative "
              "configuration that matches cached entries loosely. On the real library one request stream (operators x "
              "format triples x widths/offsets/heights/strides, scaled nearest/bilinear sources with every repeat, "
-             "rotations, solid and component-alpha masks, pixman_fill/blt) is executed once per implementation "
+             "rotations, solid and component-alpha masks, pixman_fill/blt; one group of requests per entry of the dumped "
+             "fast path tables with every kind of format field realised - concrete, null, solid, pixbuf/rpixbuf = source and "
+             "mask over the same bits, gradient, wildcard - and per SIMD combiner of the dumped combiner tables, each also "
+             "with run-structured alpha levels around 0/1 and 254/255 in blocks of 4/8/16 pixels at aligned and unaligned "
+             "destinations) is executed once per implementation "
              "configuration; TLC validates every Lookup hook event against the specification's lookup on the tables "
              "dumped from that process (hit index, chosen implementation and function, move-to-front) and requires "
              "the destination bytes of every request to be identical in all configurations (fill/blt: identical, or "
@@ -84,9 +88,11 @@ CONFIGS_MORE = [c for c in _all_configs() if c not in CONFIGS_QUICK]
 
 
 def creq(op, sf, sw, sh, srep, sfilt, t, mf, mw, mh, mrep, mca, df, dw, dh, sx, sy, mx, my, dx, dy, w, h, seed,
-         sopaque=0, shared=0, acc=0, dclip=0):
+         sopaque=0, shared=0, acc=0, dclip=0, samebits=0, pat=0):
     f = [op, sf, sw, sh, srep, sfilt] + list(t) + [mf, mw, mh, mrep, mca, df, dw, dh, sx, sy, mx, my, dx, dy, w, h,
                                                     seed, sopaque, shared, acc, dclip]
+    if samebits or pat:
+        f += [samebits, pat]
     return "C %d %s" % (len(f), " ".join(str(int(x)) for x in f))
 
 
@@ -254,15 +260,67 @@ def extreme_geometry_requests(rng, quick):
     return reqs
 
 
-def table_directed_requests(rng, exe, wd, configs):
-    """One group of requests per fast path table entry of the running library (all implementations, all
-       configurations): the driver is run with an empty script to obtain the Tables dump, and for every entry with
-       concrete formats requests are generated whose operator and formats equal the entry's, in the geometric
-       variants the entry's flags may call for (untransformed, scaled nearest, scaled bilinear, rotated; each repeat
-       mode), with and without a solid source / solid mask.  Whether a request really reaches the entry is decided
-       by the library; the Lookup events say which entry served it."""
+# flag numbers of pixman-private.h (FAST_PATH_*) used to derive the geometry an entry asks for
+FL_ID, FL_NO_PAD, FL_NO_REFLECT, FL_NEAREST, FL_NO_NORMAL, FL_NO_NONE, FL_BILINEAR = 0, 3, 4, 11, 14, 15, 19
+FL_ROT = (20, 21, 22)                     # rotation by 90, 180, 270 degrees
+FL_COMPONENT_ALPHA, FL_UNIFIED_ALPHA = 8, 9
+ROT_MATRIX = {20: [0, -FX1, FX1, 0, 63 * FX1, 0], 21: [-FX1, 0, 0, -FX1, 63 * FX1, 63 * FX1],
+              22: [0, FX1, -FX1, 0, 0, 63 * FX1]}
+FL_COVER = (23, 24)
+REPEAT_BY_FLAGS = {frozenset((FL_NO_PAD, FL_NO_REFLECT, FL_NO_NORMAL)): 0,      # NONE
+                   frozenset((FL_NO_PAD, FL_NO_REFLECT, FL_NO_NONE)): 1,        # NORMAL
+                   frozenset((FL_NO_REFLECT, FL_NO_NORMAL, FL_NO_NONE)): 2,     # PAD
+                   frozenset((FL_NO_PAD, FL_NO_NORMAL, FL_NO_NONE)): 3}         # REFLECT
+
+
+def pat(block, band=0):
+    """request field `pat` of the driver: run-structured alpha levels in blocks of `block` pixels; band 0 = chosen by
+       the request's seed, 1 = around transparent (0, 1, 2), 2 = around opaque (255, 254, 253), 3 = both"""
+    return block | (band << 8)
+
+
+COMBINERS, GENERAL_COMBINERS = set(), set()       # filled by read_tables
+
+
+def combiner_directed_requests(rng, quick):
+    """The second table along which implementations differ: the per-operator combiners of the scanline pipeline
+       (dumped by the driver: which implementation defines a combiner for which operator, unified and component
+       alpha).  One group of requests per (operator, unified / component alpha) that some SIMD implementation combines
+       itself, with formats for which no whole-operation fast path exists (b8g8r8a8 / a8b8g8r8 sources onto a8r8g8b8,
+       a8b8g8r8 or 565 destinations), so that fetch - combine - store runs; run-structured alpha levels in source, mask
+       and destination in blocks of 4 / 8 / 16 at aligned and unaligned destination offsets, because the combiners
+       test whole vectors for "all opaque" / "all zero".  The combiners only the general implementation has are
+       sampled (thorough tier: all)."""
+    reqs = []
+    todo = sorted(COMBINERS)
+    rest = sorted(GENERAL_COMBINERS - COMBINERS)
+    todo += rest if not quick else rng.sample(rest, min(6, len(rest)))
+    for (op, ca) in todo:
+        masks = [F["a8r8g8b8"]] if ca else [0, F["a8"]]
+        for mi, m in enumerate(masks):
+            shapes = [(L, band, al) for L in (4, 8, 16) for band in (2, 3, 1) for al in (0, 1)]
+            if quick:       # one per band of levels; block length and alignment by the seed
+                shapes = [(rng.choice([4, 8, 16]), band, rng.choice([0, 1])) for band in (2, 3, 1)]
+            for (L, band, al) in shapes:
+                sf = F[rng.choice(["b8g8r8a8", "a8b8g8r8"])]
+                df = F[rng.choice(["a8r8g8b8", "a8r8g8b8", "a8b8g8r8", "r5g6b5"])]
+                if sf == df:
+                    sf = F["b8g8r8a8"]
+                dw = rng.randint(24, 56)
+                dx = 0 if al else rng.randint(1, 7)
+                reqs.append(creq(op, sf, dw + 6, 4, 0, 0, IDENT, m, dw + 6, 4, 0, ca, df, dw, 2, rng.randint(0, 3), rng.randint(0, 1),
+                                 rng.randint(0, 2), 0, dx, 0, dw - dx, 2, rng.randrange(1, 2 ** 31), 0, 0, 0, 0, 0, pat(L, band)))
+    return reqs
+
+
+def read_tables(exe, wd, configs):
+    """the Tables dump of the running library under every configuration: (entries, special) where entries is the set
+       of (op, sf, mf, df, source flags, mask flags) over all implementations and special maps the names of the pseudo formats of
+       pixman-private.h (null, solid, pixbuf, rpixbuf, unknown, any) to their codes"""
     import json
-    keys = set()
+    entries, special, any_op = set(), {}, None
+    COMBINERS.clear()
+    code = lambda hl: (hl[0] << 16) | hl[1]
     for ci, dis in enumerate(configs):
         empty = os.path.join(wd, "empty.script")
         open(empty, "w").write("")
@@ -271,67 +329,217 @@ def table_directed_requests(rng, exe, wd, configs):
         for line in open(tr):
             if line.startswith('{"e":"Tables"'):
                 t = json.loads(line)
-                anyf = t["any_fmt"]
+                any_op = t["any_op"]
+                special = {k: code(v) for k, v in t["special"].items()}
+                # combiners an implementation other than the last (general) one defines itself: (operator, component alpha)
+                for ca, name in ((0, "comb"), (1, "comb_ca")):
+                    for ops in t[name][:-1]:
+                        COMBINERS.update((o, ca) for o in ops)
+                    GENERAL_COMBINERS.update((o, ca) for o in t[name][-1])
                 for imp in t["imps"]:
                     for e in imp:
-                        if e["op"] >= 0x3f:
-                            continue
-                        keys.add((e["op"], tuple(e["sf"]), tuple(e["mf"]), tuple(e["df"]), 23 in e["sfl"] or 24 in e["sfl"],
-                                  11 in e["sfl"], 19 in e["sfl"], 20 in e["sfl"] or 21 in e["sfl"] or 22 in e["sfl"]))
-    code = lambda hl: (hl[0] << 16) | hl[1]
-    PIXBUF, RPIXBUF, SOLIDC, NULLC = None, None, None, 0
-    reqs = []
-    known = set(F.values())
-    for (op, sf, mf, df, cover, nearest, bilinear, rot) in sorted(keys):
-        sfc, mfc, dfc = code(sf), code(mf), code(df)
-        if dfc not in known:
+                        entries.add((e["op"], code(e["sf"]), code(e["mf"]), code(e["df"]), frozenset(e["sfl"]),
+                                     frozenset(e["mfl"])))
+    return entries, special, any_op
+
+
+def table_directed_requests(rng, exe, wd, configs, quick=True):
+    """One group of requests per fast path table entry of the running library (all implementations, all
+       configurations): the driver is run with an empty script to obtain the Tables dump, and for EVERY entry requests
+       are generated whose operator and formats equal the entry's, in the geometric variants the entry's flags call
+       for (untransformed, tiled, scaled nearest, scaled bilinear, rotated; the repeat mode the flags name).  Every
+       kind of format field is realised:
+         concrete code   a bits image of that format
+         null            no mask / a mask that is opaque (the library drops it)
+         solid           a solid fill image / a 1x1 repeating bits image
+         pixbuf, rpixbuf an x8b8g8r8 / x8r8g8b8 source and an a8b8g8r8 or a8r8g8b8 mask over the SAME bits, same origin
+                         and repeat (plus near misses: other origin / other repeat, which are ordinary masked requests)
+         unknown         a gradient
+         any             a sample of all of the above; operator "any": a sample of operators
+       A code that is none of these is reported (evidence: table_entries_not_realised), never skipped silently.
+       Each variant is issued as a wide two-row request and a narrow one with independent random pixels of the
+       driver's value classes, and as "ramp" requests: run-structured alpha levels around 0/1 and 254/255 in blocks of
+       4, 8 and 16 pixels (constant runs, mixes, halves, ramps - what per-vector "all opaque / all transparent" tests
+       of the SIMD paths look at) at 16-byte aligned and unaligned destination offsets.
+       Whether a request really reaches the entry is decided by the library; the Lookup events say which entry served
+       it (evidence: table_entries_served).  Returns (regular, special_requests, not_realised)."""
+    entries, special, any_op = read_tables(exe, wd, configs)
+    S = special
+    keys = set()
+    # (operator, formats) that have an entry for untransformed sources: entries for transformed sources of the same
+    # formats need no untransformed request of their own
+    ident_triples = {(op, sfc, mfc, dfc) for (op, sfc, mfc, dfc, sfl, mfl) in entries if FL_ID in sfl}
+    for (op, sfc, mfc, dfc, sfl, mfl) in entries:
+        rep = None
+        for fs, r in REPEAT_BY_FLAGS.items():
+            if fs <= sfl:
+                rep = r
+        keys.add((op, sfc, mfc, dfc, bool(sfl & set(FL_COVER)), FL_NEAREST in sfl, FL_BILINEAR in sfl,
+                  max([0] + [f for f in FL_ROT if f in sfl]), FL_ID in sfl, -1 if rep is None else rep,
+                  1 if FL_COMPONENT_ALPHA in mfl else (0 if FL_UNIFIED_ALPHA in mfl else -1)))
+    concrete = lambda c: (c >> 24) != 0
+    any_src = [("bits", F[n]) for n in ("a8r8g8b8", "x8r8g8b8", "r5g6b5", "a8", "x2r10g10b10", "a8b8g8r8", "a1r5g5b5",
+                                        "a8r8g8b8_sRGB")] + [("solid", None), ("bits1x1", F["a8r8g8b8"]), ("gradient", None),
+                                                             ("pixbuf", F["x8b8g8r8"]), ("pixbuf", F["x8r8g8b8"])]
+    any_mask = [("none", 0), ("none", 0), ("bits", F["a8"]), ("bits", F["a8r8g8b8"]), ("bits", F["a1"]), ("solid", None),
+                ("bits1x1", F["a8"]), ("gradient", None), ("opaque", None)]
+    any_dst = [F[n] for n in ("a8r8g8b8", "x8r8g8b8", "r5g6b5", "a8", "a8b8g8r8", "b5g6r5", "a2r10g10b10", "a1r5g5b5",
+                              "r8g8b8", "b8g8r8a8")]
+    not_realised = set()
+
+    def src_kinds(c):
+        if c == S["any"]:
+            return any_src
+        if c == S["solid"]:
+            return [("solid", None), ("bits1x1", F[rng.choice(["a8r8g8b8", "x8r8g8b8", "a8", "r5g6b5"])])]
+        if c == S["pixbuf"]:
+            return [("pixbuf", F["x8b8g8r8"])]
+        if c == S["rpixbuf"]:
+            return [("pixbuf", F["x8r8g8b8"])]
+        if c == S["unknown"]:
+            return [("gradient", None)]
+        if concrete(c):
+            return [("bits", c)]
+        not_realised.add(c)
+        return []
+
+    def mask_kinds(c):
+        if c == S["any"]:
+            return any_mask
+        if c == S["null"]:
+            return [("none", 0), ("none", 0), ("none", 0), ("opaque", None)]
+        if c == S["solid"]:
+            return [("solid", None), ("bits1x1", F[rng.choice(["a8", "a8r8g8b8"])])]
+        if c in (S["pixbuf"], S["rpixbuf"]):
+            return [("tied", None)]            # decided by the source
+        if c == S["unknown"]:
+            return [("gradient", None)]
+        if concrete(c):
+            return [("bits", c)]
+        not_realised.add(c)
+        return []
+
+    regular, spec = [], []
+    for key in sorted(keys):
+        (op, sfc, mfc, dfc, cover, nearest, bilinear, rot, ident, rep, ca) = key
+        is_special = bool({sfc, mfc} & {S["pixbuf"], S["rpixbuf"], S["unknown"]})
+        wild = op == any_op or S["any"] in (sfc, mfc, dfc)
+        if not (concrete(dfc) or dfc == S["any"]):
+            not_realised.add(dfc)
             continue
-        # extended format codes: PIXMAN_solid = FORMAT(0,1,0,0,0,0), PIXMAN_null = 0; others (pixbuf...) skipped
-        solid_code = (1 << 16)
-        src_solid = sfc == solid_code
-        if not src_solid and sfc not in known:
+        sk, mk = src_kinds(sfc), mask_kinds(mfc)
+        if not sk or not mk:
             continue
-        if mfc == 0:
-            mvar = [0]
-        elif mfc == solid_code:
-            mvar = [SOLID]
-        elif mfc in known:
-            mvar = [mfc]
+        # the realisations of this entry: all of them for a fully determined entry, a sample for a wildcard entry
+        if wild:
+            combos = [(rng.choice(OPS_ALL) if op == any_op else op, rng.choice(sk), rng.choice(mk),
+                       rng.choice(any_dst) if dfc == S["any"] else dfc) for _ in range(24 if quick else 96)]
         else:
-            continue
-        for m in mvar:
-            variants = ["plain"]
-            if nearest and not src_solid:
-                variants += ["snear", "snear"]
-            if bilinear and not src_solid:
-                variants += ["sbil", "sbil"]
-            if rot and not src_solid:
+            combos = [(op, a, rng.choice(mk), dfc) for a in sk]
+            if sfc != S["solid"] and mfc == S["solid"]:
+                combos = [(op, a, b, dfc) for a in sk for b in mk]
+        for (cop, (skind, sfmt), (mkind, mfmt), cdf) in combos:
+            out = spec if (is_special or skind in ("pixbuf", "gradient") or mkind == "gradient") else regular
+            src_img = skind in ("bits", "pixbuf")
+            variants = ["plain"] if (ident or (op, sfc, mfc, dfc) not in ident_triples) else []
+            if src_img and rep == 1 and ident:
+                variants = ["tiled", "tiled"]
+            # an untransformed image has the "nearest" flag whatever its filter, so entries for untransformed sources
+            # name it too: one scaled request for those (quick tier), two for entries that are about scaling, and an
+            # entry about scaling that names no repeat mode is tried with each of the four
+            if nearest and src_img:
+                variants += ["snear"] if (ident and quick) else ["snear", "snear"] if rep >= 0 else ["snear:%d" % k for k in range(4)]
+            if bilinear and src_img:
+                variants += ["sbil", "sbil"] if rep >= 0 else ["sbil:%d" % k for k in range(4)]
+            if rot and src_img:
                 variants += ["rot"]
-            # every variant twice: a wide two-row request (all pixel value classes of the driver occur: zero, ones,
-            # opaque, alpha 0 with colour, alpha 1/254 ...; scalar heads/tails and vector bodies run) and a narrow one
-            for var, size in [(v, z) for v in variants for z in ("wide", "narrow")]:
-                seed = rng.randrange(1, 2 ** 31)
-                dw, dh = (rng.randint(33, 44), 2) if size == "wide" else (rng.choice([1, 2, 3, 5, 7]), 1)
-                w, h = dw, dh
-                dx = dy = 0
-                t = IDENT
-                sfilt, srep = 0, 0
-                sw, sh = dw + 6, dh + 2
-                sx, sy = rng.randint(0, 3), rng.randint(0, 1)
-                if var == "snear" or var == "sbil":
-                    sfilt = 3 if var == "snear" else 4
-                    sc = rng.choice([FX1 // 2, FX1 * 3 // 2, FX1 * 2, 43690])
-                    t = [sc, 0, 0, rng.choice([FX1, sc]), rng.choice([0, FX1 // 2, 3 * FX1]), 0]
-                    srep = rng.choice([0, 1, 2, 3])
-                    sw, sh = rng.choice([(4 * dw + 16, 4 * dh + 8), (7, 3)])
-                elif var == "rot":
-                    sw, sh = 48, 48
-                    t = rng.choice([[0, -FX1, FX1, 0, 47 * FX1, 0], [-FX1, 0, 0, -FX1, 47 * FX1, 47 * FX1],
-                                    [0, FX1, -FX1, 0, 0, 47 * FX1]])
-                mca = 1 if (m == F["a8r8g8b8"] and rng.random() < 0.7) else 0
-                reqs.append(creq(op, SOLID if src_solid else sfc, sw, sh, srep, sfilt, t, m, dw + 6, dh + 2, 0, mca, dfc,
-                                 dw, dh, sx, sy, rng.randint(0, 2), 0, dx, dy, w, h, seed, 0, 0))
-    return reqs
+            if wild and src_img and skind != "pixbuf":
+                variants = [rng.choice(["plain", "plain", "tiled", "snear", "sbil", "rot"])]
+            if skind == "pixbuf":
+                # the two mask formats the library accepts, then the near misses
+                variants = ["pixbuf:a8b8g8r8", "pixbuf:a8r8g8b8", "pixbuf:a8b8g8r8:origin", "pixbuf:a8r8g8b8:repeat"]
+                if wild:
+                    variants = [rng.choice(variants)]
+            for var in variants:
+                sizes = [("wide", 0), ("narrow", 0)]
+                # ramp requests: every block length x two bands, alternately unaligned / aligned, for the special kinds;
+                # otherwise one around opaque per variant plus one around transparent / both for untransformed sources
+                # (thorough tier: every block length)
+                if out is spec:
+                    sizes += [("ramp", pat(L, band)) for L in (4, 8, 16) for band in (2, 3)] + [("ramp", pat(8, 1))]
+                elif not quick and not wild:
+                    sizes += [("ramp", pat(L, 2)) for L in (4, 8, 16)] + [("ramp", pat(rng.choice([4, 8, 16]), rng.choice([1, 3])))]
+                elif wild:
+                    sizes = [rng.choice(sizes + [("ramp", pat(rng.choice([4, 8, 16])))])]
+                elif var == "snear" and ident:
+                    pass            # the one scaled request of an entry for untransformed sources: no ramp in the quick tier
+                else:
+                    sizes += [("ramp", pat(rng.choice([4, 8, 16]), 2))]
+                    if var in ("plain", "tiled"):
+                        sizes += [("ramp", pat(rng.choice([4, 8, 16]), rng.choice([1, 3])))]
+                for ri, (size, pt) in enumerate(sizes):
+                    seed = rng.randrange(1, 2 ** 31)
+                    dw, dh = (rng.choice([1, 2, 3, 5, 7]), 1) if size == "narrow" else (rng.randint(33, 44), 2)
+                    dx = dy = 0
+                    if size == "ramp":
+                        # destination start: 16-byte aligned (dx 0; malloc'ed rows) and every other offset within 16 bytes
+                        dw = rng.randint(40, 56)
+                        aligned = (ri % 2 == 1) if len(sizes) > 4 else (rng.random() < 0.34)
+                        dx = 0 if aligned else rng.randint(1, 15)
+                    w, h = dw - dx, dh
+                    t = IDENT
+                    sfilt, srep = 0, (rep if (rep >= 0 and var != "plain") else 0)
+                    sw, sh = dw + 6, dh + 2
+                    sx, sy = rng.randint(0, 3), rng.randint(0, 1)
+                    mw, mh, mrep, mx, my, samebits = dw + 6, dh + 2, 0, rng.randint(0, 2), 0, 0
+                    sf = sfmt
+                    if skind == "solid":
+                        sf, sw, sh, sx, sy = SOLID, 1, 1, 0, 0
+                    elif skind == "bits1x1":
+                        sw, sh, srep, sx, sy = 1, 1, 1, 0, 0
+                    elif skind == "gradient":
+                        sf, srep = S["unknown"], rng.choice([0, 1, 2, 3])
+                    if var == "tiled":
+                        sw, sh, srep = rng.choice([(3, 2), (7, 3), (17, 1), (2, 2), (dw // 2, 2), (64, 1)])[:2] + (1,)
+                        sw = max(sw, 1)
+                        sx, sy = rng.randint(0, 40), rng.randint(0, 5)
+                    elif var.startswith("snear") or var.startswith("sbil"):
+                        sfilt = 3 if var.startswith("snear") else 4
+                        sc = rng.choice([FX1 // 2, FX1 * 3 // 2, FX1 * 2, 43690])
+                        t = [sc, 0, 0, rng.choice([FX1, sc]), rng.choice([0, FX1 // 2, 3 * FX1]), 0]
+                        srep = rep if (rep >= 0 and rng.random() < 0.75) else rng.choice([0, 1, 2, 3])
+                        if ":" in var:
+                            srep = int(var.split(":")[1])
+                        sw, sh = (4 * dw + 16, 4 * dh + 8) if (cover and rng.random() < 0.8) else \
+                            rng.choice([(4 * dw + 16, 4 * dh + 8), (7, 3)])
+                    elif var == "rot":
+                        sw, sh = 64, 64
+                        t = ROT_MATRIX[rot or rng.choice(FL_ROT)]
+                    m = 0
+                    if mkind == "bits":
+                        m = mfmt
+                    elif mkind == "solid":
+                        m = SOLID
+                    elif mkind == "bits1x1":
+                        m, mw, mh, mrep, mx, my = mfmt, 1, 1, 1, 0, 0
+                    elif mkind == "opaque":
+                        m, mw, mh, mrep, mx, my = F["x8r8g8b8"], 1, 1, 1, 0, 0
+                    elif mkind == "gradient":
+                        m, mrep = S["unknown"], rng.choice([0, 1, 2, 3])
+                    if var.startswith("pixbuf"):
+                        parts = var.split(":")
+                        m, samebits, mx, my, mrep = F[parts[1]], 1, sx, sy, srep
+                        if parts[-1] == "origin":
+                            mx = sx + rng.choice([1, 2])
+                        elif parts[-1] == "repeat":
+                            mrep = 1
+                    # component alpha: as the entry's mask flags say; free where they say nothing
+                    mca = ca if ca >= 0 else (1 if (m == F["a8r8g8b8"] and rng.random() < 0.7) else 0)
+                    if samebits or not m:
+                        mca = 0
+                    out.append(creq(cop, sf, sw, sh, srep, sfilt, t, m, mw, mh, mrep, mca, cdf,
+                                    dw, dh, sx, sy, mx, my, dx, dy, w, h, seed, 0, 0, 0, 0, samebits, pt))
+    return regular, spec, sorted(not_realised)
 
 
 def fill_blt_sweep(rng, quick):
@@ -423,6 +631,36 @@ def count_res(chk, tr):
             chk.distinct_keys.add(hash(line[j:]))
 
 
+def entry_coverage(traces):
+    """which fast path table entries (identified by operator, formats and source flags, over all configurations) were
+       returned by at least one Lookup - a measurement for the evidence (an entry never reached proves nothing), not a
+       verdict"""
+    import json
+    code = lambda hl: (hl[0] << 16) | hl[1]
+    all_entries, served = set(), set()
+    for _, tr in traces:
+        tables, any_fmt, any_op = None, None, None
+        for line in open(tr):
+            if line.startswith('{"e":"Tables"'):
+                t = json.loads(line)
+                tables, any_fmt, any_op = t["imps"], t["any_fmt"], t["any_op"]
+                for imp in tables:
+                    for e in imp:
+                        all_entries.add((e["op"], code(e["sf"]), code(e["mf"]), code(e["df"]), tuple(e["sfl"])))
+            elif line.startswith('{"e":"Lookup"') and tables is not None:
+                ev = json.loads(line)
+                if not (1 <= ev["imp"] <= len(tables)):
+                    continue
+                for e in tables[ev["imp"] - 1]:
+                    if e["func"] == ev["func"] and e["op"] in (ev["op"], any_op) and all(e[k] in (ev[k], any_fmt) for k in ("sf", "mf", "df")) \
+                            and set(e["sfl"]) <= set(ev["sfl"]):
+                        served.add((e["op"], code(e["sf"]), code(e["mf"]), code(e["df"]), tuple(e["sfl"])))
+                        break
+    missing = sorted(all_entries - served)
+    return len(all_entries), len(served), ["op %d src %#x mask %#x dest %#x flags %s" % (m[0], m[1], m[2], m[3], list(m[4]))
+                                           for m in missing]
+
+
 def run_c02(args):
     chk = vf.Check("C02", args.tier, args.seed)
     quick = args.tier == "quick"
@@ -433,11 +671,19 @@ def run_c02(args):
     chk.extra["build"] = px["hash"]
     configs = CONFIGS_QUICK + ([] if quick else CONFIGS_MORE)
     reqs = gen_requests(rng, 500 if quick else 15000)
-    directed = table_directed_requests(rng, exe, wd, configs)
-    if quick and len(directed) > 1100:
-        directed = rng.sample(directed, 1100)
-    chk.extra["table_directed_requests"] = len(directed)
-    reqs += directed
+    directed, special, not_realised = table_directed_requests(rng, exe, wd, configs, quick)
+    cap = 2600
+    if quick and len(directed) > cap:
+        directed = rng.sample(directed, cap)
+    # requests for the special kinds of entry (pixbuf / rpixbuf / gradient realisations) are few and never sampled away
+    chk.extra["table_directed_requests"] = len(directed) + len(special)
+    chk.extra["table_directed_special_requests"] = len(special)
+    chk.extra["table_entries_not_realised"] = ["%#x" % c for c in not_realised]
+    reqs += directed + special
+    comb = combiner_directed_requests(rng, quick)
+    chk.extra["combiner_directed_requests"] = len(comb)
+    chk.extra["simd_combiners"] = len(COMBINERS)
+    reqs += comb
     sweep = fill_blt_sweep(rng, quick)
     chk.extra["fill_blt_sweep_requests"] = len(sweep)
     reqs += sweep
@@ -456,6 +702,10 @@ def run_c02(args):
         traces.append((dis or "default", tr))
         count_res(chk, tr)
     chk.extra["configurations"] = configs
+    n_entries, n_served, unserved = entry_coverage(traces)
+    chk.extra["table_entries"] = n_entries
+    chk.extra["table_entries_served"] = n_served
+    chk.extra["table_entries_never_served"] = unserved
     # fills/blts that succeeded per configuration (so that "always FALSE" cannot pass silently)
     okfill = {}
     for name, tr in traces:
